@@ -34,6 +34,8 @@ func HostileStrings() []string {
 		"<b>", "</b>", "<br>", "<wbr>", "<script>alert(1)</script>", "</script>", "<!--", "-->", "]]>", "<a href=\"x\" onclick='y'>", "<img src=x onerror=alert(1)>",
 		"line1\nline2", "line1\r\nline2\rline3\n", "\n", "\r", "\r\n\r\n", "tab\tsep", "back\\slash", "quote\"s'", "%20%", "100%", "a+b c", "a=b&c=d", "http://x.y/z?q=1&r=<2>",
 		"averyveryveryveryverylongwordwithoutanyspaces", "short words only here", "x y", strings.Repeat("<", 200), strings.Repeat("&amp;", 100), strings.Repeat("a b", 300), strings.Repeat("é", 500), strings.Repeat("0123456789", 100),
+		"a"+strings.Repeat("é", 1500), "ab"+strings.Repeat("中", 1400), "x"+strings.Repeat("😀", 1100), strings.Repeat("word ", 900)+strings.Repeat("é", 300),
+		strings.Repeat("<é>&", 1300), "q"+strings.Repeat("日本語", 1500),
 		"null", "true", "0", "-1", "1e3", "{$x}", "{", "}", "{{", "/*", "//", "\x00\x01\x02", "a\x00b", "\xff\xfe", "\xc3\x28", "\xe2\x82", "ok\xf0\x9f\x98",
 	)
 	hostileStrings = out
